@@ -22,7 +22,8 @@ def strategies_for(opts_rng):
     return [
         words.Expand(drop=drop, order=rng.choice((0, 1, 2)), plus=False),
         words.Expand(drop=drop, order=rng.choice((0, 1, 2)), plus=True),
-        words.RemoveFront(drop=drop, atom_last=rng.random() < 0.5, split=rng.random() < 0.5),
+        words.RemoveFront(drop=drop, atom_last=rng.random() < 0.5, split=rng.random() < 0.5,
+                          swap=rng.random() < 0.4),
         words.LetterSym(),
         words.MinimisePatterns(),
         words.DropDeadStat(),
